@@ -24,6 +24,7 @@ import Mathlib.Algebra.BigOperators.Ring.Finset
 import Rsa.Lemmas.C09
 import Rsa.Lemmas.C09Rdm
 import Rsa.Lemmas.C09R3
+import Rsa.Lemmas.C09R4
 import Rsa.Gen.C09
 
 set_option linter.unusedSectionVars false
@@ -925,5 +926,167 @@ example : (∀ (σ : Equiv.Perm (Fin 2)) f, exSymP (fun t => σ (f t)) = exSymP 
   · intro h
     have := h (fun _ => 0) (fun t => t)
     simp [exSymP] at this
+
+
+/-! ## Round 4 — no hidden state: in-place operations between draws
+
+An `RDMs` object can be changed in place between two bootstrap draws (`reorder`, `sort_by`,
+assignments to `pattern_descriptors`, writes to `.dissimilarities`).  The property speaks about the
+object *as it is at the time of the draw*: a sample is a function of the current labelled content
+and of the draws, of nothing else. -/
+
+/-- `subsample_pattern` is the gathering of the sorted selection: the sample is determined by the
+    current content (vectors, descriptors) of the stack alone -/
+theorem subsamplePattern_eq_gather (s : Stack L α) (by_ : String) (desc : List L)
+    (hd : s.patDesc.lookup by_ = some desc) (value : List L) :
+    s.subsamplePattern by_ value = some (s.gather (patSelection desc value)) := by
+  simp [Stack.subsamplePattern, hd, Stack.gather]
+
+/-- entries of a stack gathered at *arbitrary* (unsorted, repeated) source positions `sel`: entry
+    `(r, i, j)` is NaN iff both positions are the same source condition and otherwise the source
+    entry of RDM `r` for that (unordered) pair of source conditions -/
+theorem gather_entry (s : Stack L α) (sel : List Nat) (r : Nat) (w : List (Option α))
+    (hw : s.vecs[r]? = some w) (i j : Nat) (hij : i < j) (hj : j < sel.length) :
+    ∃ w', (s.gather sel).vecs[r]? = some w' ∧
+      w'[triIdx (s.gather sel).nCond i j]? =
+        some (if sel[i]'(by omega) = sel[j] then none
+              else w.getD (triIdx s.nCond (min (sel[i]'(by omega)) sel[j])
+                                          (max (sel[i]'(by omega)) sel[j])) none) := by
+  refine ⟨subVec s.nCond sel w, ?_, ?_⟩
+  · simp only [Stack.gather]
+    rw [List.getElem?_map, hw]; rfl
+  · simp only [Stack.gather]
+    rw [gatherVec_getElem? s.nCond sel w i j hij hj]
+    congr 1
+    unfold vecToMat
+    by_cases he : sel[i]'(by omega) = sel[j]
+    · simp [he]
+    · by_cases hlt : sel[i]'(by omega) < sel[j]
+      · have h1 : min (sel[i]'(by omega)) sel[j] = sel[i]'(by omega) := by omega
+        have h2 : max (sel[i]'(by omega)) sel[j] = sel[j] := by omega
+        simp [he, hlt, h1, h2]
+      · have h1 : min (sel[i]'(by omega)) sel[j] = sel[j] := by omega
+        have h2 : max (sel[i]'(by omega)) sel[j] = sel[i]'(by omega) := by omega
+        simp [he, hlt, h1, h2]
+
+/-- **Sampling after an in-place reordering.**  For any re-indexing `p` of the conditions applied in
+    place (`reorder(p)`, `sort_by`), sampling the reordered object is gathering the *original* at
+    the selected positions mapped through `p`: sample condition `i` is original condition
+    `p[sel'[i]]` where `sel'` is the selection computed on the reordered descriptor, every pattern
+    descriptor value is that original condition's, and (`gather_entry`) every entry is the original
+    entry of the two original conditions, NaN exactly between copies.  Nothing of the object's
+    earlier state (an earlier order, an earlier draw) enters. -/
+theorem sample_after_inplace (s : Stack L α) (hwf : s.WF) (p : List Nat)
+    (hp : ∀ i ∈ p, i < s.nCond) (by_ : String) (desc : List L)
+    (hd : s.patDesc.lookup by_ = some desc) (value : List L) :
+    (s.reorder p).subsamplePattern by_ value =
+      some (s.gather ((patSelection (pick desc p) value).map (fun a => p.getD a 0))) := by
+  have hdl : desc.length = s.nCond := hwf.pat_len _ (mem_of_lookup hd)
+  have hpl : (pick desc p).length = p.length :=
+    pick_length _ _ (fun i hi => by rw [hdl]; exact hp i hi)
+  have hsel : ∀ a ∈ patSelection (pick desc p) value, a < p.length := fun a ha => by
+    have := lt_of_mem_patSelection ha; omega
+  have hl : (s.reorder p).patDesc.lookup by_ = some (pick desc p) := by
+    simp [Stack.reorder, Stack.gather, lookup_extract, hd]
+  have hv : ((s.vecs.map (subVec s.nCond p)).map
+        (subVec p.length (patSelection (pick desc p) value)))
+      = s.vecs.map (subVec s.nCond ((patSelection (pick desc p) value).map (fun a => p.getD a 0))) := by
+    rw [List.map_map]
+    apply List.map_congr_left
+    intro v _
+    exact subVec_comp _ _ _ _ hsel
+  have he := extract_extract s.patDesc s.nCond hwf.pat_len p
+    (patSelection (pick desc p) value) hp hsel
+  rw [subsamplePattern_eq_gather _ by_ _ hl]
+  simp only [Stack.reorder, Stack.gather, hv, he, List.length_map]
+
+/-- … and when `p` is a permutation of the conditions, the original conditions in the sample after
+    the in-place reordering are — with multiplicity — exactly those a sample of the original object
+    with the same drawn values contains (members of the drawn groups, drawn multiplicity);
+    only their order follows the new order of the object. -/
+theorem inplace_same_conditions (s : Stack L α) (hwf : s.WF) (p : List Nat)
+    (hperm : p.Perm (List.range s.nCond)) (by_ : String) (desc : List L)
+    (hd : s.patDesc.lookup by_ = some desc) (value : List L) :
+    ((patSelection (pick desc p) value).map (fun a => p.getD a 0)).Perm
+      (patSelection desc value) := by
+  have hdl : desc.length = s.nCond := hwf.pat_len _ (mem_of_lookup hd)
+  have hp : ∀ i ∈ p, i < s.nCond := fun i hi => by simpa using hperm.mem_iff.mp hi
+  have hp' : ∀ i ∈ p, i < desc.length := fun i hi => by rw [hdl]; exact hp i hi
+  have hnd : p.Nodup := hperm.nodup_iff.mpr List.nodup_range
+  have hpl : (pick desc p).length = p.length := pick_length _ _ hp'
+  have hsel : ∀ a ∈ patSelection (pick desc p) value, a < p.length := fun a ha => by
+    have := lt_of_mem_patSelection ha; omega
+  rw [List.perm_iff_count]
+  intro q
+  by_cases hq : q < s.nCond
+  · have hqp : q ∈ p := hperm.mem_iff.mpr (by simpa using hq)
+    obtain ⟨a0, ha0, rfl⟩ := List.getElem_of_mem hqp
+    rw [count_map_getD p hnd _ hsel a0 ha0,
+      count_patSelection (pick desc p) value a0 (by omega),
+      count_patSelection desc value p[a0] (by omega)]
+    congr 1
+    have := pick_getElem desc p hp' a0 ha0
+    rw [List.getElem?_eq_getElem (by omega)] at this
+    exact Option.some.inj this
+  · have h1 : q ∉ (patSelection (pick desc p) value).map (fun a => p.getD a 0) := by
+      intro hm
+      obtain ⟨a, ha, rfl⟩ := List.mem_map.mp hm
+      have hal := hsel a ha
+      have : p.getD a 0 = p[a] := by
+        simp [List.getD_eq_getElem?_getD, List.getElem?_eq_getElem hal]
+      rw [this] at hq
+      exact hq (hp _ (List.getElem_mem hal))
+    have h2 : q ∉ patSelection desc value := fun hm => by
+      have := lt_of_mem_patSelection hm; omega
+    rw [List.count_eq_zero.mpr h1, List.count_eq_zero.mpr h2]
+
+/-- **Sessions on one object.**  Whatever in-place operations `ops` (reorderings, descriptor
+    assignments, writes to single dissimilarities) stand between the start and a draw, and whatever
+    draws were made before, the draw returns the bootstrap sample of the content the object has
+    *then*; the remaining session continues from that same content (a draw changes nothing). -/
+theorem session_no_hidden_state (le : L → L → Bool) (s : Stack L α) (ops : List (InPlace L α))
+    (patBy : String) (draws : List Nat) (rest : List (Step L α)) :
+    runSession le s (ops.map Step.op ++ Step.draw patBy draws :: rest) =
+      bootstrapSamplePattern le (ops.foldl Stack.apply s) patBy draws ::
+        runSession le (ops.foldl Stack.apply s) rest := by
+  induction ops generalizing s with
+  | nil => rfl
+  | cons o os ih => simpa [runSession] using ih (s.apply o)
+
+/-- draw, reorder in place, draw again: the first result is the sample of the object as built, the
+    second one gathers the *original* content at the positions selected on the reordered
+    descriptor, mapped through the reordering -/
+theorem draw_reorder_draw (le : L → L → Bool) (s : Stack L α) (hwf : s.WF) (p : List Nat)
+    (hp : ∀ i ∈ p, i < s.nCond) (by_ : String) (desc : List L)
+    (hd : s.patDesc.lookup by_ = some desc) (d1 d2 : List Nat) :
+    runSession le s [Step.draw by_ d1, Step.op (InPlace.reorder p), Step.draw by_ d2] =
+      [bootstrapSamplePattern le s by_ d1,
+       some (s.gather ((patSelection (pick desc p) (bootIdx (uniq le (pick desc p)) d2)).map
+               (fun a => p.getD a 0)),
+             bootIdx (uniq le (pick desc p)) d2)] := by
+  have hl : (s.reorder p).patDesc.lookup by_ = some (pick desc p) := by
+    simp [Stack.reorder, Stack.gather, lookup_extract, hd]
+  simp only [runSession, Stack.apply, bootstrapSamplePattern, hl,
+    sample_after_inplace s hwf p hp by_ desc hd, Option.map_some]
+
+/-- non-vacuity: `[2, 0, 1]` is a permutation of the example stack's three conditions; after that
+    in-place reordering the descriptor reads `5, 5, 4`, drawing category 5 twice selects the new
+    positions `0, 0, 1, 1`, i.e. the original conditions `2, 2, 0, 0` — a rearrangement of the
+    `0, 0, 2, 2` a draw on the original object selects (`ex_sel`) -/
+example : [2, 0, 1].Perm (List.range exStack.nCond) := by decide
+
+example : (patSelection (pick [5, 4, 5] [2, 0, 1]) [5, 5]).map (fun a => [2, 0, 1].getD a 0)
+    = [2, 2, 0, 0] := by
+  have h : pick [5, 4, 5] [2, 0, 1] = [5, 5, 4] := by decide
+  rw [h, patSelection_eq_of [5, 5, 4] [5, 5] [0, 0, 1, 1] (by decide) (by decide)]
+  rfl
+
+/-- the sample drawn after the reordering: conditions (orig.) 2,2,0,0; the entries between the
+    copies are NaN, the others are the original entry of the pair (0,2): `2` in the first RDM,
+    NaN (source NaN) in the second -/
+example : ((exStack.gather [2, 2, 0, 0]).vecs, (exStack.gather [2, 2, 0, 0]).patDesc) =
+    ([[none, some 2, some 2, some 2, some 2, none], [none, none, none, none, none, none]],
+     [("index", [2, 2, 0, 0]), ("cat", [5, 5, 5, 5])]) := by
+  decide
 
 end Rsa.Props.C09
